@@ -211,6 +211,22 @@ LastVerdict(c, h, r) ==
     ELSE IF r.feas # Feasible(c, h[Len(h)]) THEN "FeasibilityFlag"
     ELSE "ok"
 
+\* history.check_design_point_is_feasible at every recorded point: vm[i] = [feas, v] with v the
+\* measure in units of 1/16 (the square of the value unit).  The measure must count every recorded
+\* constraint (either reading); the flag is judged on fully evaluated points only.
+FullyRecorded(c, p) == \A k \in 1..NCons(c) : Recorded(p, k)
+MeasureOk(c, p, m) == m.v \in {ViolAll(c, p), ViolStrict(c, p)}
+MeasureVerdict(c, h, vm) ==
+    IF Len(vm) # Len(h) THEN "MeasureOfEveryPoint"
+    ELSE IF \E i \in 1..Len(h) : ~MeasureOk(c, h[i], vm[i]) THEN "ViolationMeasure"
+    ELSE IF \E i \in 1..Len(h) : FullyRecorded(c, h[i]) /\ vm[i].feas # Feasible(c, h[i]) THEN "MeasureFeasibilityFlag"
+    ELSE "ok"
+MeasureWhy(c, h, vm, v) ==
+    IF v = "ViolationMeasure"
+    THEN (IF \A i \in 1..Len(h) : MeasureOk(c, h[i], vm[i]) \/ vm[i].v = CodeViol(c, h[i], 1, 0, TRUE)
+          THEN "recorded_violation_after_missing_constraint_is_ignored" ELSE "wrong_measure")
+    ELSE "-"
+
 FeasiblePointsVerdict(c, h, fp) ==
     IF {fp[j] : j \in 1..Len(fp)} = FeasIdx(c, h) /\ Len(fp) = Cardinality(FeasIdx(c, h))
     THEN "ok" ELSE "FeasiblePoints"
@@ -279,9 +295,9 @@ QuickFamily == <<
   E(<<I2>>, 0, 0, TRUE,  FALSE, TRUE,  "all",  3, "two",  "mid"),
   E(<<E2>>, 1, 1, FALSE, FALSE, FALSE, "alt",  3, "two",  "mid"),
   \* two constraints, both orders of the types, <= 2 points
-  E(<<I1, E1>>, 0, 0, FALSE, TRUE,  FALSE, "alt",  2, "four", "tiny"),
+  E(<<I1, E1>>, 0, 0, FALSE, TRUE,  FALSE, "alt",  2, "tiny", "tiny"),
   E(<<I1, E1>>, 1, 0, TRUE,  FALSE, TRUE,  "all",  2, "tiny", "mid"),
-  E(<<E1, I1>>, 0, 1, FALSE, TRUE,  FALSE, "all",  2, "four", "tiny"),
+  E(<<E1, I1>>, 0, 1, FALSE, TRUE,  FALSE, "all",  2, "tiny", "tiny"),
   E(<<E1, I1>>, 1, 1, TRUE,  TRUE,  FALSE, "none", 2, "tiny", "tiny"),
   E(<<I1, I0>>, 1, 0, FALSE, TRUE,  TRUE,  "alt",  2, "four", "tiny"),
   E(<<E0, E1>>, 0, 1, FALSE, FALSE, FALSE, "all",  2, "tiny", "tiny"),
@@ -311,9 +327,9 @@ ThoroughFamily == QuickFamily \o <<
   E(<<I1, E1>>, 0, 1, FALSE, TRUE,  FALSE, "alt",  3, "tiny", "tiny"),
   E(<<E1, I1>>, 1, 0, TRUE,  FALSE, FALSE, "all",  3, "tiny", "tiny"),
   E(<<I2, E1>>, 0, 0, FALSE, TRUE,  FALSE, "all",  3, "two",  "tiny"),
-  E(<<E2, I1>>, 1, 1, TRUE,  TRUE,  FALSE, "alt",  3, "two",  "tiny"),
+  E(<<E2, I1>>, 1, 1, TRUE,  TRUE,  FALSE, "alt",  3, "two",  "three"),
   E(<<I1, E1>>, 1, 1, FALSE, TRUE,  FALSE, "all",  4, "two",  "three"),
-  E(<<E1, I0>>, 0, 0, TRUE,  FALSE, FALSE, "none", 4, "num",  "three")
+  E(<<E1, I0>>, 0, 0, TRUE,  FALSE, FALSE, "none", 3, "mid",  "three")
 >>
 
 Family == IF Tier = "quick" THEN QuickFamily ELSE ThoroughFamily
@@ -366,6 +382,8 @@ CodedOutsideD8 ==
           \/ HistoryClass(C, H) = "feasible_without_usable_objective" /\ v = "RecordedPoint"
           \/ /\ HistoryClass(C, H) = "infeasible_partially_evaluated"
              /\ Why(C, H, r, v) = "minimal_only_if_recorded_violation_after_missing_constraint_is_ignored"
+\* the measure as transcribed, once repaired, is reading A; as coded it differs exactly on D8(i)
+MeasureTheorem == \A i \in 1..Len(H) : CodeViol(C, H[i], 1, 0, FALSE) = ViolAll(C, H[i])
 \* last_point obeys "the values of that very point"
 LastIsAPoint == LastVerdict(C, H, LastReport(C, H)) = "ok"
 
